@@ -9,6 +9,7 @@ import (
 	"net"
 	"runtime"
 	"sort"
+	"strings"
 	"sync"
 	"sync/atomic"
 	"testing"
@@ -311,6 +312,100 @@ func TestC17DirectedPairs(t *testing.T) {
 	}
 }
 
+// TestC17SessionIDs: many fresh server handshakes at once in one process. Every connection must get its
+// own session id, and the server's cache must hold, under that id, the key of THAT connection (a shared
+// id means one client's later resumption meets another connection's key).
+func TestC17SessionIDs(t *testing.T) {
+	// (1) the id source itself, hammered from 8 goroutines
+	const per = 150000
+	draws := make([][]int, 8)
+	var wg sync.WaitGroup
+	for g := range draws {
+		wg.Add(1)
+		go func(g int) {
+			defer wg.Done()
+			out := make([]int, 0, per)
+			for i := 0; i < per; i++ {
+				out = append(out, security.GetNextSessionCounter())
+			}
+			draws[g] = out
+		}(g)
+	}
+	wg.Wait()
+	seen := make(map[int]bool, 8*per)
+	for _, d := range draws {
+		for _, v := range d {
+			if seen[v] {
+				w := fmt.Sprintf("two concurrent callers were handed the same session counter value %d: concurrent fresh handshakes can be issued one session id", v)
+				kit.Violation("C17", w, map[string]any{"session_counter": v})
+				t.Fatalf("C17 violated: %s", w)
+			}
+			seen[v] = true
+		}
+	}
+	ev.Case("session-counter", "session-counter")
+	ev.Count("session_counter_draws", int64(8*per))
+	// (2) whole handshakes
+	rounds := 25 * kit.Scale(1, 6)
+	type got struct {
+		sid string
+		key []byte
+	}
+	res := make([][]got, 16)
+	errs := make([]string, 16)
+	for g := range res {
+		wg.Add(1)
+		go func(g int) {
+			defer wg.Done()
+			for i := 0; i < rounds; i++ {
+				cc := kit.BaseConfig(security.SecurityRequired, security.SecurityRequired, security.AuthClaimToBe)
+				sc := kit.BaseConfig(security.SecurityOptional, security.SecurityOptional, security.AuthClaimToBe)
+				sc.SessionCache = nil
+				r := kit.Handshake(cc, sc, 8*time.Second)
+				if r.CErr != nil || r.SErr != nil {
+					errs[g] = fmt.Sprintf("fresh handshake %d/%d failed while others were running: client %v / server %v", g, i, r.CErr, r.SErr)
+					return
+				}
+				var key []byte
+				if e, ok := cc.SessionCache.Lookup(r.CNeg.SessionId); ok && e.KeyInfo() != nil {
+					key = append([]byte(nil), e.KeyInfo().Data...)
+				}
+				res[g] = append(res[g], got{r.SNeg.SessionId, key})
+				_ = r.CConn.Close()
+				_ = r.SConn.Close()
+			}
+		}(g)
+	}
+	wg.Wait()
+	for _, e := range errs {
+		if e != "" {
+			kit.Violation("C17", e, map[string]any{"session_ids": true})
+			t.Fatalf("C17 violated: %s", e)
+		}
+	}
+	ids := map[string]bool{}
+	n := 0
+	for _, rs := range res {
+		for _, x := range rs {
+			n++
+			if ids[x.sid] {
+				w := fmt.Sprintf("two of %d concurrent fresh handshakes were issued the same session id %q", 16*rounds, x.sid)
+				kit.Violation("C17", w, map[string]any{"session_ids": true})
+				t.Fatalf("C17 violated: %s", w)
+			}
+			ids[x.sid] = true
+			e, ok := security.GetSessionCache().Lookup(x.sid)
+			if !ok || e.KeyInfo() == nil || x.key == nil || string(e.KeyInfo().Data) != string(x.key) {
+				w := fmt.Sprintf("after %d concurrent fresh handshakes the server's cache entry for session %q does not hold that connection's key (found=%v)", 16*rounds, x.sid, ok)
+				kit.Violation("C17", w, map[string]any{"session_ids": true})
+				t.Fatalf("C17 violated: %s", w)
+			}
+		}
+	}
+	ev.Case("fresh-handshake-storm", fmt.Sprintf("fresh-storm:%d", n))
+	ev.Count("concurrent_handshakes", int64(n))
+}
+
 // TestC17LostStore: the narrow window directly. An expired entry sits under id X; four resumption-style
 // lookups of X run against one Store of a fresh entry for X. When all have returned the fresh entry must
 // be there: a lookup that judged the OLD entry expired may not remove the NEW one.
@@ -600,9 +695,9 @@ func runListenerBurst(n, deadEvery, procs int) string {
 		return ""
 	}
 	defer rl.Close()
-	dl, _ := net.Listen("tcp", "127.0.0.1:0") // an address nobody listens on
-	dead := dl.Addr().String()
-	_ = dl.Close()
+	// an address nobody listens on (a just-closed ephemeral port could be re-bound by a check running
+	// beside this one; port 1 is never bound here)
+	dead := "127.0.0.1:1"
 	var hellos int64
 	go func() {
 		for {
@@ -689,6 +784,11 @@ func TestC17ListenerBurst(t *testing.T) {
 		deadEvery := rapid.SampledFrom([]int{0, 2, 5}).Draw(t, "deadEvery")
 		procs := rapid.SampledFrom([]int{2, 4, 16}).Draw(t, "procs")
 		v := runListenerBurst(n, deadEvery, procs)
+		if strings.HasPrefix(v, "C17 harness:") { // the scenario could not be set up: says nothing about the property
+			ev.Class("listener-burst-not-set-up(inconclusive)")
+			t.Logf("inconclusive: %s", v)
+			return
+		}
 		ev.Case("listener-burst", fmt.Sprintf("burst:%d/%d/%d", n, deadEvery, procs))
 		ev.Count("concurrent_result_writers", int64(n))
 		if v != "" {
